@@ -438,7 +438,7 @@ Lemma model_step_inv : forall s st,
   state_wf (fst (model_step s st)) = true /\ length (insts (fst (model_step s st))) = length (insts s).
 Proof.
   intros s [o g cl ob] Hwf. unfold model_step. cbn [st_op st_g st_close].
-  destruct o as [ev| |c|e stt].
+  destruct o as [ev| |c|e stt|h c].
   - pose proof (state_wf_process (cs_of cl) s ev g Hwf) as H1. pose proof (process_length (cs_of cl) s ev g) as H2.
     destruct (process (cs_of cl) s ev g). cbn [fst] in *. auto.
   - pose proof (state_wf_generate s g Hwf) as H1. pose proof (generate_spec s g) as H2. cbn zeta in H2.
@@ -446,6 +446,12 @@ Proof.
   - pose proof (state_wf_action (cs_of cl) s c Hwf) as H1. pose proof (action_spec (cs_of cl) s c) as H2. cbn zeta in H2.
     destruct (action (cs_of cl) s c). cbn [fst] in *. split; [exact H1|]. apply rest_length. tauto.
   - cbn [fst insts]. split; [exact Hwf|reflexivity].
+  - destruct (hook_fires h (trading s)); [|cbn [fst]; auto].
+    assert (state_wf (hook_state h s) = true) as Hwf' by (destruct h; exact Hwf).
+    pose proof (state_wf_action (cs_of cl) (hook_state h s) c Hwf') as H1.
+    pose proof (action_spec (cs_of cl) (hook_state h s) c) as H2. cbn zeta in H2.
+    destruct (action (cs_of cl) (hook_state h s) c). cbn [fst] in *. split; [exact H1|].
+    transitivity (length (insts (hook_state h s))); [apply rest_length; tauto|destruct h; reflexivity].
 Qed.
 
 Lemma mbox_clear_state : forall s e, mbox (links (clear_state s)) e = [].
@@ -453,7 +459,7 @@ Proof. intros. unfold clear_state. cbn [links]. apply mbox_clear. Qed.
 
 Lemma model_step_static : forall s st, map inst_static (insts (fst (model_step s st))) = map inst_static (insts s).
 Proof.
-  intros s [o g cl ob]. unfold model_step. cbn [st_op st_g st_close]. destruct o as [ev| |c|e stt].
+  intros s [o g cl ob]. unfold model_step. cbn [st_op st_g st_close]. destruct o as [ev| |c|e stt|h c].
   - pose proof (process_orders (cs_of cl) s ev g) as H. cbn zeta in H. destruct H as [H _].
     unfold process. destruct (process_trace (cs_of cl) s ev g) as [s' t]. cbn [fst] in *.
     rewrite (rest_static _ _ H). apply update_state_static.
@@ -462,4 +468,8 @@ Proof.
   - pose proof (action_spec (cs_of cl) s c) as H. cbn zeta in H. destruct (action (cs_of cl) s c). cbn [fst] in *.
     apply rest_static. tauto.
   - reflexivity.
+  - destruct (hook_fires h (trading s)); [|reflexivity].
+    pose proof (action_spec (cs_of cl) (hook_state h s) c) as H. cbn zeta in H.
+    destruct (action (cs_of cl) (hook_state h s) c). cbn [fst] in *.
+    transitivity (map inst_static (insts (hook_state h s))); [apply rest_static; tauto|destruct h; reflexivity].
 Qed.
